@@ -408,6 +408,25 @@ func observe[V any](c *run.Ctx, k omKind[V], m *ordered.Map[string, V], p *refmo
 			return "Equal is true against a map with " + what
 		}
 		c.Count("equal_pairs_unequal", 2)
+		// one value differs, everything else agrees: two "empty-looking" values of different types at one position
+		if _, isAny := any(k.mkVal).(func(*rand.Rand, int) any); isAny && full {
+			empties := []any{"", nil, 0, false, 0.0, []any{}, ordered.NewMap[string, any](0), "0", "false", "null"}
+			x, y := r.IntN(len(empties)), r.IntN(len(empties))
+			if x != y {
+				a := append([]ordered.Tuple[string, V](nil), items...)
+				b := append([]ordered.Tuple[string, V](nil), items...)
+				a[j].Value, _ = empties[x].(V)
+				b[j].Value, _ = empties[y].(V)
+				am, bm := ordered.MapFromItems(a...), ordered.MapFromItems(b...)
+				if ordered.Equal(am, bm) || ordered.Equal(bm, am) {
+					return fmt.Sprintf("Equal is true for two maps that differ in one value only: %#v versus %#v", empties[x], empties[y])
+				}
+				if !ordered.Equal(am, ordered.MapFromItems(a...)) {
+					return fmt.Sprintf("Equal is false for two maps built from the same pairs (value %#v)", empties[x])
+				}
+				c.Count("equal_pairs_one_value_of_another_type", 2)
+			}
+		}
 	}
 	return ""
 }
